@@ -15,9 +15,10 @@ LEVELS = {
     "kb": [1000002, 999999, 1000001],  # ids of seven digits
     "kf": [1000001.0, 0.5, 1000002.0],  # ids read as floats
 }
+LEVELS["kc"] = [3, 1, 2]  # numbers stored as a pandas categorical (by the harness that uses it)
 LEVELS["inc"] = [">50K", "<=50K", "n/a", "St. Louis"]  # levels with punctuation and blanks
 LEVELS["wid"] = [f"G{i:03d}" for i in range(260)]  # a grouping factor with a few hundred groups
-NUMERIC_LEVELS = {"k": np.int64, "kb": np.int64, "kf": np.float64}
+NUMERIC_LEVELS = {"k": np.int64, "kb": np.int64, "kf": np.float64, "kc": np.int64}
 NUMS = ["x", "z"]
 CATS = ["f", "g", "h"]
 
@@ -25,7 +26,7 @@ CATS = ["f", "g", "h"]
 def used_vars(formula):
     """variable names (from our fixed vocabulary) that occur in the formula text"""
     names = set(re.findall(r"[A-Za-z_][A-Za-z0-9_.]*", formula))
-    return [v for v in ["y", "x", "z", "f", "g", "h", "k", "kb", "kf", "wid", "inc", "w", "n", "s", "w12", "q1"] if v in names]
+    return [v for v in ["y", "x", "z", "f", "g", "h", "k", "kb", "kf", "kc", "wid", "inc", "w", "n", "s", "w12", "q1"] if v in names]
 
 
 def cat_rows(cats, order, reps=1):
